@@ -121,7 +121,7 @@ func CSVConsumer(opts ...CSVOpt) Consumer {
 			t := v.Type()
 
 			switch {
-			case t.Kind() == reflect.Slice && t.Elem().Kind() == reflect.Slice && t.Elem().Elem().Kind() == reflect.String:
+			case t.Kind() == reflect.Slice && t.Elem() == reflect.TypeOf([]string(nil)): // [][]string or a type defined as such
 				csvWriter := &csvRecordsWriter{}
 				// writer options are ignored
 				if err := pipeCSV(csvWriter, csvReader, o); err != nil {
@@ -266,7 +266,7 @@ func CSVProducer(opts ...CSVOpt) Producer {
 			t := v.Type()
 
 			switch {
-			case t.Kind() == reflect.Slice && t.Elem().Kind() == reflect.Slice && t.Elem().Elem().Kind() == reflect.String:
+			case t.Kind() == reflect.Slice && t.Elem() == reflect.TypeOf([]string(nil)): // [][]string or a type defined as such
 				csvReader := &csvRecordsWriter{
 					records: make([][]string, v.Len()),
 				}
